@@ -96,7 +96,7 @@ def replay(root, path):
         print("(also observed on this case: %s)" % sorted(set(x.get("property") for x in other)))
     eng.cleanup()
     if eng.stuck:
-        if prop == "C09":
+        if prop == "C09" or (prop == "C04" and v.get("stuck_batch")):
             print("VIOLATION property=%s replay=%s" % (prop, path))
             print("  what: next() did not return within %s CPU-s on the recorded definition and input" % eng.stuck[0].get("cpu_s"))
             return 1
